@@ -628,6 +628,8 @@ def unit_rewrites(ud, rel, s, rw):
         # T10: the two adapter-chain idioms -> helpers with assumed contracts (bodies are the original expressions)
         s = rw.regex('T10', s, r'self\.expr\.clone\(\)\.take\((\d+)\)\.collect::<String>\(\)', r'verif_peek_str(&self.expr, \1)')
         s = rw.regex('T10', s, r'self\.expr\.by_ref\(\)\.take\((\d+)\)\.for_each\(drop\)', r'verif_skip(&mut self.expr, \1)')
+        # T25: keyword comparisons (after T10)
+        s = t25_keyword_tests(s, rw)
         # T18: char / &str -> String conversions without a vstd spec -> helpers with assumed contracts (bodies = the original calls)
         s = rw.literal('T18', s, 'current_char?.to_string()', 'verif_char_string(current_char?)')
         s = rw.literal('T18', s, '"0".to_string()', 'verif_str_string("0")')
@@ -764,6 +766,48 @@ def t8_f64_consts(s, rw):
     """T8: associated constants of f64 -> helpers with uninterpreted values (f64_prims.vinc)."""
     for name, fn in F64_CONSTS:
         s = rw.regex('T8', s, r'(?<![\w:])' + re.escape(name) + r'\b', fn)
+    return s
+
+
+def t25_keyword_tests(s, rw):
+    """T25.  The two ways the tokenizers compare the look-ahead text with a keyword:
+         verif_peek_str(&self.expr, N) == "LIT"                               ->  verif_peek_is(&self.expr, N, "LIT")
+         match verif_peek_str(&self.expr, N).as_str() { "L1" => B1, .., _ => D }  ->  if verif_peek_is(.., N, "L1") { B1 } .. else { D }
+    (string-literal patterns are tested in order and are pairwise distinct, so the if-chain is the match).  Each test is
+    preceded by `reveal_strlit("LIT")` so that the characters of the literal *in the code* are what the proof sees.
+    verif_peek_is is an external_body helper whose body is the original comparison (tok_prelude.vinc)."""
+    n = 0
+    # innermost-first: repeat until no `match verif_peek_str(..).as_str() {` is left
+    while True:
+        ms = list(re.finditer(r'match verif_peek_str\(&self\.expr, (\d+)\)\.as_str\(\) \{', s))
+        if not ms:
+            break
+        m = ms[-1]                      # the last one in the text has no such match after it -> innermost or independent
+        bo = m.end() - 1
+        bc = rsrc.match_close(s, bo)
+        arms = rsrc.match_arms(s, bo, bc)
+        parts = []
+        for k, arm in enumerate(arms):
+            body = s[arm['body_start']:arm['body_end']].strip()
+            if not body.startswith('{'):
+                body = '{ ' + body + ' }'
+            pat = arm['pat']
+            if pat == '_':
+                if k != len(arms) - 1:
+                    raise LostAnchor("T25: `_` arm is not the last arm")
+                parts.append('else ' + body)
+            else:
+                if not re.match(r'^"[^"\\]*"$', pat):
+                    raise LostAnchor("T25: unexpected pattern %r in a keyword match" % pat)
+                parts.append('%sif ({ proof { reveal_strlit(%s); } verif_peek_is(&self.expr, %s, %s) }) %s'
+                             % ('else ' if k else '', pat, m.group(1), pat, body))
+        if not arms or arms[-1]['pat'] != '_':
+            raise LostAnchor("T25: keyword match without a `_` arm")
+        s = s[:m.start()] + ' '.join(parts) + s[bc + 1:]
+        n += 1
+    s, k = re.subn(r'verif_peek_str\(&self\.expr, (\d+)\) == ("[^"\\]*")',
+                   r'({ proof { reveal_strlit(\2); } verif_peek_is(&self.expr, \1, \2) })', s)
+    rw.count('T25', n + k)
     return s
 
 
